@@ -501,6 +501,58 @@ def r5_cleanup_target(ctx, prog, rule_id='C09.R5'):
                 r.ok(f['qname'], site, 'reset before the creating call on every path that reaches the clean-up', file=f['file'], line=f['line'])
 
 
+REJECTIONS = re.compile(r'CKR_(TEMPLATE_\w+|ATTRIBUTE_\w+|KEY_\w+|MECHANISM_\w+|DOMAIN_PARAMS_INVALID|ARGUMENTS_BAD|WRAPPED_KEY_\w+)')
+
+
+def r6_commit_last(ctx, prog, rule_id='C09.R6'):
+    """Whatever can reject a request is decided before the object's transaction is committed: once commitTransaction() has succeeded the new attribute values are on disk, and a
+    call that then answers with a rejection code leaves the rejected state durable - visible to other processes at once, and to everybody if the process dies before the clean-up."""
+    r = ctx.rule(rule_id, 'no rejection (template / attribute / key / mechanism error) is returned after the transaction of the object was committed', floor=5, engine='E3 typestate')
+    for f in sorted(prog.functions.values(), key=lambda f: (f['file'], f['line'])):
+        if f['body'] is None or not f['file'].endswith(('SoftHSM.cpp', 'P11Objects.cpp', 'P11Attributes.cpp')):
+            continue
+        commits = list(calls(f['body'], short='commitTransaction'))
+        if not commits or unanalysable(f):
+            continue
+        if len(commits) > 1:
+            continue        # key-pair generation builds two objects one after the other: the second one can only be judged after the first was committed (its clean-up is C09.R1)
+        ctx.analysed(f)
+
+        class A(Interp):
+            TRACK = ('rv', 'bOK')
+
+            def __init__(self, fn, prog):
+                super().__init__(fn, prog)
+                self.track_facts = re.compile(r'commitTransaction')
+                self.rets = []
+
+            def on_call(self, e, st):
+                if e.get('k') == 'Call' and short(e.get('callee')) == 'startTransaction':
+                    st.aut.pop('committed', None)
+
+            def on_fact(self, atom, truth, st):
+                pc = parse_call(atom)
+                inner = atom
+                m = re.fullmatch(r'EQ\((.*),(false|0)\)', atom)
+                if m:
+                    inner, truth = m.group(1), not truth
+                if re.match(r'commitTransaction(@\d+)?\(', inner) and truth:
+                    st.aut['committed'] = inner
+
+            def on_return(self, s, st):
+                self.rets.append((s, st.copy(), canon(s['e'], st.env) if s.get('e') is not None else ''))
+        a = A(f, prog).go()
+        r.paths += a.paths_returned
+        site = 'exits after a successful commit'
+        bad = [(s_, st, v) for s_, st, v in a.rets if st.aut.get('committed') and REJECTIONS.fullmatch(v)]
+        if bad:
+            s_, st, v = bad[0]
+            r.violation(f['qname'], site, 'return %s at line %s is reached after %s succeeded: the values of a request that is being rejected are already on disk (another process, or a crash before the clean-up, sees the rejected object)' % (v, s_['l'], st.aut['committed'][:60]),
+                        file=f['file'], line=s_['l'], path=st.show_path())
+        else:
+            r.ok(f['qname'], site, '%d exits, none rejects after the commit' % len(a.rets), file=f['file'], line=f['line'])
+
+
 def run(ctx):
     prog = ctx.prog('ossl-file')
     r1_cleanup(ctx, prog)
@@ -508,6 +560,7 @@ def run(ctx):
     r3_rollback(ctx, prog)
     r4_store(ctx, prog)
     r5_cleanup_target(ctx, prog)
+    r6_commit_last(ctx, prog)
 
 
 MUTANTS = [
